@@ -59,7 +59,10 @@ FaultKinds == {"undefined-symbol", "duplicate-label", "duplicate-constant", "dup
                \* a diagnostic with spans in two files (the earlier definition far down in a long included file)
                "cross-file-duplicate-export", "cross-file-duplicate-constant", "cross-file-sob-forward", "non-ascii-digit",
                "include-own-link-aborted", "include-own-dot-aborted", "include-own-link-nested-syntax-error",
-               "unencodable-string-with-forward-chunk"}
+               "unencodable-string-with-forward-chunk",
+               \* two open findings about blocks that are compiled late (count defined further down): a base directive inside one next to
+               \* a base directive that waits for the block's size, and a file that includes itself from inside one
+               "two-links-one-in-lazy-repeat", "self-include-in-lazy-repeat"}
 
 (* ---- terminal classes (the renderer's table has one entry per name) ---- *)
 AtomClasses == {"oct", "dec", "d89", "cnum", "caretnum", "negnum", "bignum", "name", "namecolon", "local", "localcolon",
